@@ -592,13 +592,19 @@ fn format_do_block_multiline(
 
 /// via / into / where are not admitted at the top level of a lambda body
 fn lambda_body_needs_parens(body: &SpannedExpr) -> bool {
-    matches!(
-        &body.node,
+    // Walk the left spine of the loosest-binding operators: `a via f and b` is printed flat
+    match &body.node {
         Expr::BinaryOp {
             op: BinaryOp::Via | BinaryOp::Into | BinaryOp::Where,
             ..
-        }
-    )
+        } => true,
+        Expr::BinaryOp {
+            op: BinaryOp::And | BinaryOp::NaturalAnd | BinaryOp::Or | BinaryOp::NaturalOr,
+            left,
+            ..
+        } => lambda_body_needs_parens(left),
+        _ => false,
+    }
 }
 
 /// Convert lambda argument to string
